@@ -262,6 +262,20 @@ def gen_spec(rng, profile=None, uid=None):
             c["refs"] = {g: [dict(r) for r in d["copies"][0]["refs"][g]] for g in GROUPS_T}
     for s in sids:
         fill_refs(state_refs[s], GROUPS_S)
+    # a class-body function passed as a callable (enter=/exit=) whose NAME also matches the naming
+    # convention of the very place it is passed to: still one callback, called once
+    if P.get("p_conv_named_func", 0.3):
+        def n_refs(cid):
+            return sum(1 for t_ in trans for g_ in GROUPS_T for r_ in t_["refs"][g_] if r_.get("cb") == cid) + sum(
+                1 for s_ in sids for g_ in GROUPS_S for r_ in state_refs[s_][g_] if r_.get("cb") == cid)
+        for s in sids:
+            for g in GROUPS_S:
+                for r in state_refs[s][g]:
+                    if r["by"] == "obj" and cbs[r["cb"]]["kind"] == "func" and n_refs(r["cb"]) == 1 and rng.random() < P.get("p_conv_named_func", 0.3):
+                        nm = f"on_{g}_{s}"
+                        if not any(cb["name"] == nm and cb["provider"] == "sm" for cb in cbs.values()):
+                            cbs[r["cb"]]["name"] = nm
+                            cbs[r["cb"]]["conv_named"] = True
     # decorators
     for e in events:
         for g in GROUPS_T:
